@@ -549,7 +549,37 @@ func init() {
 			if goLit == nil {
 				r.Fail(fl.Name()+":fill-goroutine", fl.Decl.Pos(), nil, "flush no longer starts a goroutine that stores the fetched batch in the reorder buffer")
 			} else {
-				spec := &pathsim.Spec{Step: func(c *pathsim.Ctx, s pathsim.State, ev *pathsim.Event) []pathsim.State {
+				// atom 0: "the batch taken out of the batcher is empty" — any `len(x) == 0` test of a
+				// slice of the batch's element type (the test may be repeated inside and outside a
+				// closure around the critical section; both look at the same batch)
+				var batchT types.Type
+				if sig, ok := flushFn.Type().(*types.Signature); ok && sig.Results().Len() == 1 {
+					batchT = sig.Results().At(0).Type()
+				}
+				spec := &pathsim.Spec{Atom: func(c *pathsim.Ctx, e ast.Expr) (int, bool, bool) {
+					b, ok := ast.Unparen(e).(*ast.BinaryExpr)
+					if !ok || (b.Op != token.EQL && b.Op != token.NEQ && b.Op != token.GTR) {
+						return 0, false, false
+					}
+					call, ok := ast.Unparen(b.X).(*ast.CallExpr)
+					if !ok || len(call.Args) != 1 {
+						return 0, false, false
+					}
+					if id, ok := call.Fun.(*ast.Ident); !ok || id.Name != "len" {
+						return 0, false, false
+					}
+					if tv, ok := c.Info.Types[b.Y]; !ok || tv.Value == nil || tv.Value.String() != "0" {
+						return 0, false, false
+					}
+					at := c.Info.TypeOf(call.Args[0])
+					if at == nil || batchT == nil {
+						return 0, false, false
+					}
+					if _, isSlice := at.Underlying().(*types.Slice); !isSlice || at.String() != batchT.String() {
+						return 0, false, false
+					}
+					return 0, b.Op != token.EQL, true
+				}, Step: func(c *pathsim.Ctx, s pathsim.State, ev *pathsim.Event) []pathsim.State {
 					switch ev.Kind {
 					case pathsim.EvCall:
 						if fn, _ := ev.Callee.(*types.Func); fn == reserveFn {
